@@ -483,7 +483,17 @@ def standin_params_and_loops(tier, seed):
                       "repeat-until loops with 1 or 2 deterministic iterations x {plain, key map, key path, nested in a repeated sub-circuit} x {key, sympy, bit-mask} conditions x 2 simulators",
                 cases=cases, distinct=cases, failures=len(fails), exhaustive=False, _fails=fails[:4])
 standin_params_and_loops.prop = "C12"
-STANDINS = [standin_subcircuits, standin_key_algebra, standin_params_and_loops]
+def standin_unrolled(tier, seed):
+    """a sub-circuit and its unrolled form (the three unrolling transformers; shared with C06) give the same records, also when the sub-circuit
+    only reads a key that the enclosing circuit measures before and again after it"""
+    from contracts.C06_transformers import standin_unroll_dependencies as f
+
+    r = dict(f(tier, seed))
+    r["case"] = "unrolled"
+    return r
+standin_unrolled.prop = "C12"
+
+STANDINS = [standin_subcircuits, standin_key_algebra, standin_params_and_loops, standin_unrolled]
 
 
 def _replay_scoping(ob, seed):
